@@ -6,7 +6,12 @@ base/functions.py): `functions.col`, `Column.ensure_col`, `functions.lit`/`Colum
 constructor and the operand rule of `Column.binary_op` / `inverse_binary_op`.
 Assumed (third party, abstract): `parse : String → Ex`, sqlglot's `maybe_parse` of the text of a name.
 Generated: `Gen.cells`, which coercion a string meets in every (function, engine, position) cell
-(tools/props/c16_trace.py runs the real functions with a tracing `str`).
+(tools/props/c16_trace.py runs the real functions with a tracing `str`); element 2 / 3 of a `*cols` position is the
+first / a later element of ONE list argument (`f([a, b])`, where PySpark documents that form).
+Second part (below `-- naming`): what NAME the result carries and how a collection argument is unpacked —
+`struct`'s field names (`Gen.structFieldName`), the varargs-or-one-list rule of `array` / `create_map` / `map_concat` /
+`struct` (`Gen.unpackSites`), the automatic alias of `func_metadata` (`Gen.autoAliasFromResultOnly`, `Gen.noAutoAlias`).
+sqlglot's readings of a name (`Names`) are abstract there as well.
 -/
 import SqlframeModel.Gen.Functions
 namespace Sqlframe.C16
@@ -88,7 +93,10 @@ def pyMul (parse : String → Ex) (x : Arg) (y : Ex) : Ex :=
 /-- a concrete stand-in for sqlglot's parser, used by the driver only: identifier-like text is a column
     reference, anything else is "some other SQL" (validated against the real parser by the check) -/
 def isIdentChar (ch : Char) : Bool := ch.isAlphanum || ch == '_'
-def identLike (s : String) : Bool := !s.isEmpty && s.toList.all isIdentChar
+def identLike (s : String) : Bool :=
+  match s.toList with
+  | [] => false
+  | ch :: rest => !ch.isDigit && isIdentChar ch && rest.all isIdentChar
 def parseStandIn (s : String) : Ex := if identLike s then .column s else .app "<parsed sql>" [.strLit s]
 
 /-- the text sqlglot's `Identifier` renders for a column name after `col`'s normalisation (stand-in:
@@ -171,22 +179,37 @@ def parsedNameCells : List Pattern := [
 
 def hitsAny (ps : List Pattern) (c : Cell) : Bool := ps.any (·.hits c)
 
+/-- a flattener that hands back the elements of ONE list argument -/
+def _root_.Sqlframe.Gen.Flattener.splices : Flattener → Bool
+  | .flatten => true
+  | .ensureList => true
+  | .sqlFunction => false
+  | .unbound => false
+
+/-- the cell is a list-form cell (`f([a, b])`) of a function whose unpacking site, for that engine, does not splice the
+    list (generated `Gen.unpackSites`: repairing the source empties this set with no edit here) -/
+def listFormBroken (c : Cell) : Bool :=
+  decide (c.sub ≥ 2) && unpackSites.any (fun s => s.api == c.fn && s.engines.contains c.engine && !s.flattener.splices)
+
 /-- named scope hypotheses of `C16_table_partial`: the cell is not one of the listed defect cells -/
 def H_rawOperator (c : Cell) : Prop := hitsAny rawOperatorCells c = false
 def H_litOnName (c : Cell) : Prop := hitsAny litOnNameCells c = false
 def H_formatAsText (c : Cell) : Prop := hitsAny formatAsTextCells c = false
 def H_parsedName (c : Cell) : Prop := hitsAny parsedNameCells c = false
+def H_listForm (c : Cell) : Prop := listFormBroken c = false
 
 instance (c : Cell) : Decidable (H_rawOperator c) := by unfold H_rawOperator; exact inferInstance
 instance (c : Cell) : Decidable (H_litOnName c) := by unfold H_litOnName; exact inferInstance
 instance (c : Cell) : Decidable (H_formatAsText c) := by unfold H_formatAsText; exact inferInstance
 instance (c : Cell) : Decidable (H_parsedName c) := by unfold H_parsedName; exact inferInstance
+instance (c : Cell) : Decidable (H_listForm c) := by unfold H_listForm; exact inferInstance
 
 /-- `H_listedCells` -/
 def listed (c : Cell) : Bool :=
-  hitsAny rawOperatorCells c || hitsAny litOnNameCells c || hitsAny formatAsTextCells c || hitsAny parsedNameCells c
+  hitsAny rawOperatorCells c || hitsAny litOnNameCells c || hitsAny formatAsTextCells c || hitsAny parsedNameCells c ||
+  listFormBroken c
 
-def InScope (c : Cell) : Prop := H_rawOperator c ∧ H_litOnName c ∧ H_formatAsText c ∧ H_parsedName c
+def InScope (c : Cell) : Prop := H_rawOperator c ∧ H_litOnName c ∧ H_formatAsText c ∧ H_parsedName c ∧ H_listForm c
 
 instance (c : Cell) : Decidable (InScope c) := by unfold InScope; exact inferInstance
 
@@ -195,7 +218,8 @@ def violated (c : Cell) : List String :=
   (if hitsAny rawOperatorCells c then ["H_rawOperator"] else []) ++
   (if hitsAny litOnNameCells c then ["H_litOnName"] else []) ++
   (if hitsAny formatAsTextCells c then ["H_formatAsText"] else []) ++
-  (if hitsAny parsedNameCells c then ["H_parsedName"] else [])
+  (if hitsAny parsedNameCells c then ["H_parsedName"] else []) ++
+  (if listFormBroken c then ["H_listForm"] else [])
 
 /-- the cell check `decide +kernel` runs over the generated table (good cells stop at the first disjunct) -/
 def cellOk (c : Cell) : Bool := c.coercion == .ensureCol || listed c
@@ -203,5 +227,113 @@ def cellOk (c : Cell) : Bool := c.coercion == .ensureCol || listed c
 /-- the table's entry for (function, engine, position, element) -/
 def coercionAt (fn : String) (e : Engine) (pos sub : Nat) : Option Coercion :=
   (cells.find? (fun c => c.fn == fn && c.engine == e && c.pos == pos && c.sub == sub)).map (·.coercion)
+
+-- ------------------------------------------------------------------------------------------------
+-- naming: struct fields, one-list arguments, the automatic alias
+-- ------------------------------------------------------------------------------------------------
+
+/-- sqlglot's readings of names (third party, abstract in every theorem) -/
+structure Names where
+  /-- `maybe_parse` of a `str` handed to `Column(...)` -/
+  parse : String → Ex
+  /-- `Column.alias_or_name`: the alias, else the LAST part of the reference, as the input dialect prints it -/
+  aliasOf : Ex → String
+  /-- `parse_identifier(text)`: the identifier a text denotes, as printed -/
+  identOf : String → String
+  /-- the first Identifier (else the first Literal) found in a tree: what the automatic alias is made of -/
+  firstIdent : Ex → String
+
+/-- the text `struct` names a field by, as `Gen.structFieldName` reads it from the source -/
+def fieldNameText (N : Names) : NameSource → Arg → String
+  | .resolved, a => N.aliasOf (colFn N.parse a)
+  | .raw, .str s => s
+  | .raw, .colObj e => N.aliasOf e
+
+/-- one field of `struct`: `PropertyEQ(this = parse_identifier(<text>), expression = <resolved column>)` -/
+def structField (N : Names) (src : NameSource) (a : Arg) : Ex :=
+  .app "PropertyEQ" [.app "Identifier" [.strLit (N.identOf (fieldNameText N src a))], colFn N.parse a]
+
+def structOf (N : Names) (src : NameSource) (as : List Arg) : Ex := .app "STRUCT" (as.map (structField N src))
+
+/-- PySpark: every field is the referenced column, named after the LAST part of the reference -/
+def specStruct (N : Names) (ns : List String) : Ex :=
+  .app "STRUCT" (ns.map fun n => .app "PropertyEQ" [.app "Identifier" [.strLit (N.identOf (N.aliasOf (.column n)))], .column n])
+
+/-- how PySpark code passes the columns of a `*cols` function that also documents the list form -/
+inductive Call
+  | varargs (as : List Arg)     -- f(a, b, …)
+  | oneList (as : List Arg)     -- f([a, b, …])
+  deriving Repr
+
+/-- PySpark's meaning of either form: the elements -/
+def Call.elems : Call → List Arg
+  | .varargs as => as
+  | .oneList as => as
+
+/-- `cols' = [list(] F(cols) [)] if not isinstance(cols[0], (str, Column)) else cols`, resp. `ensure_list(col) + list(cols)`.
+    `scalarGuard` = the isinstance test names the kind of the first argument (a `str` for a name, a Column otherwise).
+    `none` = the call raises.  (`cols` non-empty: `cols[0]` of an empty call raises in sqlframe; PySpark's `array()` is out of C16.) -/
+def unpack (f : Flattener) (guardStr guardColumn : Bool) : Call → Option (List Arg)
+  | .varargs [] => none
+  | .varargs (a :: as) =>
+    let guarded := match a with
+      | .str _ => guardStr
+      | .colObj _ => guardColumn
+    if guarded || f == .ensureList then some (a :: as)
+    else match f with
+      | .flatten => some (a :: as)      -- sqlglot.helper.flatten: `str` and Column are not iterable, nothing is spliced
+      | .ensureList => some (a :: as)
+      | .sqlFunction => none            -- list(<Column>) : not iterable
+      | .unbound => none                -- NameError
+  | .oneList as =>
+    match f with
+    | .flatten => some as
+    | .ensureList => some as
+    | .sqlFunction => none
+    | .unbound => none
+
+def _root_.Sqlframe.Gen.UnpackSite.unpack (s : UnpackSite) (c : Call) : Option (List Arg) := C16.unpack s.flattener s.guardStr s.guardColumn c
+
+/-- the arguments as names / as `col(name)` objects -/
+def strArgs (ns : List String) : List Arg := ns.map .str
+def colArgs (ns : List String) : List Arg := ns.map fun n => .colObj (.column n)
+
+/-- a `*cols` function over an unpacking site: every element goes through `ensure_col`, `k` is the rest of the body -/
+def colsCall (parse : String → Ex) (s : UnpackSite) (k : List Ex → Ex) (c : Call) : Option Ex :=
+  (s.unpack c).map fun as => k (as.map (ensureCol parse))
+
+/-- `struct(...)` as a whole: unpack, then name the fields -/
+def structCall (N : Names) (s : UnpackSite) (src : NameSource) (c : Call) : Option Ex :=
+  (s.unpack c).map (structOf N src)
+
+/-- `func_metadata.wrapper`: a result that is a function call and has no alias yet is given the alias
+    `<function>__<first identifier of the result>__`; functions listed in `noAutoAlias` are left alone.
+    `rawArgs` = what the wrapper could read besides the result (the caller's arguments); it is ignored exactly
+    when `Gen.autoAliasFromResultOnly` -/
+def autoAlias (N : Names) (fromResultOnly : Bool) (fn : String) (rawFirst : Option String) (result : Ex) : Ex :=
+  if noAutoAlias.contains fn then result
+  else
+    let txt := if fromResultOnly then N.firstIdent result else (rawFirst.getD (N.firstIdent result))
+    .app "Alias" [result, .app "f'{func.__name__}__{col_name}__'" [.strLit fn, .strLit txt]]
+
+/-- the first argument as the wrapper sees it: the raw text of a name, nothing for a Column -/
+def rawFirstOf : Arg → Option String
+  | .str s => some s
+  | .colObj _ => none
+
+/-- a decorated function of one ColumnOrName argument: coercion, body `k`, then the wrapper -/
+def decorated (N : Names) (fn : String) (k : Ex → Ex) (c : Coercion) (a : Arg) : Option Ex :=
+  (resultWith N.parse k c a).map (autoAlias N autoAliasFromResultOnly fn (rawFirstOf a))
+
+def specDecorated (N : Names) (fn : String) (k : Ex → Ex) (n : String) : Option Ex :=
+  (specResult k n).map (autoAlias N true fn none)
+
+/-- symbolic names, used by the driver: every reading of sqlglot stays visible in the output, and the check
+    interprets it with the real sqlglot -/
+def symNames : Names where
+  parse := parseStandIn
+  aliasOf e := "aliasOf(" ++ (match e with | .column n => "col[" ++ n ++ "]" | .strLit s => "'" ++ s ++ "'" | .app f _ => f) ++ ")"
+  identOf t := "identOf(" ++ t ++ ")"
+  firstIdent e := "firstIdent(" ++ (match e with | .column n => "col[" ++ n ++ "]" | .strLit s => "'" ++ s ++ "'" | .app f _ => f) ++ ")"
 
 end Sqlframe.C16
